@@ -72,7 +72,7 @@ void prot_del(const void* n, bool by_copy) {
 }
 
 template <class R>
-struct Node : R::template enable_concurrent_ptr<Node<R>> {
+struct Node : R::template enable_concurrent_ptr<Node<R>, 1> {
   int64_t id;
   uint64_t canary;
   explicit Node(int64_t i) : id(i), canary(0xC0FFEE00u + (uint64_t)i) {
@@ -117,12 +117,12 @@ std::string instr_str(const SInstr& s) {
 }
 
 constexpr int MAXG = 8;
-constexpr int NCELLS = 3;
+constexpr int NCELLS = 4; // exhaustive mode: cell0 / cell1 hold nodes (cell1 with mark bit), cell2 is null, cell3 is a marked null pointer
 
 template <class R, int K, bool Dynamic, bool IsHP>
 struct Env {
   using N = Node<R>;
-  using CPtr = typename R::template concurrent_ptr<N>;
+  using CPtr = typename R::template concurrent_ptr<N, 1>; // one mark bit: marked and marked-null pointers are part of the game
   using MPtr = typename CPtr::marked_ptr;
   using GPtr = typename CPtr::guard_ptr;
   static constexpr int G = K + 2;
@@ -476,9 +476,9 @@ struct Env {
     uint64_t throws = 0, ops = 0, full_states = 0, over_k = 0;
   };
 
-  static void retire_cell(Shared& S, int c, N* replacement) {
+  static void retire_cell(Shared& S, int c, N* replacement, unsigned mark = 0) {
     N* old = S.cell[c].load(std::memory_order_acquire).get();
-    S.cell[c].store(MPtr(replacement), std::memory_order_release);
+    S.cell[c].store(MPtr(replacement, mark), std::memory_order_release);
     if (old != nullptr) {
       xrt::op_begin(O_NOPS, true);
       GPtr gd{MPtr(old)}; // this thread is the only one that unlinks: old cannot have been retired yet
@@ -514,7 +514,7 @@ struct Env {
           int64_t id = ((int64_t)w.tid << 20) | S.next_id.fetch_add(1, std::memory_order_relaxed);
           nn = new N(id);
         }
-        retire_cell(S, c, nn);
+        retire_cell(S, c, nn, rng.chance(1, 3) ? 1 : 0); // also marked nodes and marked null pointers
       }
     } else {
       for (int c = 0; c < NCELLS; ++c)
@@ -698,8 +698,9 @@ struct Env {
   static void setup_body(void* p) {
     Shared& S = *(Shared*)p;
     for (int c = 0; c < 2; ++c)
-      S.cell[c].store(MPtr(new N(100 + c)), std::memory_order_release);
+      S.cell[c].store(MPtr(new N(100 + c), (unsigned)c), std::memory_order_release);
     S.cell[2].store(MPtr(nullptr), std::memory_order_release);
+    S.cell[3].store(MPtr(nullptr, 1), std::memory_order_release);
   }
   static void sweep_body(void* p) {
     Shared& S = *(Shared*)p;
